@@ -92,7 +92,8 @@ class MatlabDefCompiler:
         return name
 
     def generate_field(self, top_field: str, name: str, value: Any) -> str:
-        name = name.replace(f"{top_field}_", "", 1)  # strip top_field from fieldname
+        if name.startswith(f"{top_field}_"):
+            name = name[len(top_field) + 1 :]  # strip leading top_field from fieldname
         name = self.sanitize_name(name)
         return f"{self.struct_name}.{top_field}.{name} = {value};\n"
 
